@@ -7,6 +7,8 @@ let int_of_n = function N0 -> 0 | Npos p -> int_of_pos p
 let rec nat_of_int n = if n = 0 then O else S (nat_of_int (n - 1))
 let bytes_of_hex s = if s = "-" then [] else List.init (String.length s / 2) (fun i -> n_of_int (int_of_string ("0x" ^ String.sub s (2*i) 2)))
 let hex_of_bytes l = let b = Buffer.create 256 in List.iter (fun x -> Buffer.add_string b (Printf.sprintf "%02x" (int_of_n x))) l; Buffer.contents b
+let int_of_z = function Z0 -> 0 | Zpos p -> int_of_pos p | Zneg p -> - (int_of_pos p)
+let rec cstr_hex l = match l with [] -> "" | x :: r -> let v = int_of_n x in if v = 0 then "" else Printf.sprintf "%02x" v ^ cstr_hex r
 let ints s = List.map int_of_string (String.split_on_char ',' s)
 
 let () =
@@ -61,6 +63,26 @@ let () =
          let p = perm_bits (n_of_int (int_of_string attr)) (n_of_int (int_of_string umask)) in
          let (((((s, mi), h), d), mo), y) = mtime_fields (n_of_int (int_of_string date)) (n_of_int (int_of_string time)) in
          Printf.printf "%d %d %d %d %d %d %d\n" (int_of_n p) (int_of_n s) (int_of_n mi) (int_of_n h) (int_of_n d) (int_of_n mo) (int_of_n y)
+     | "chm", [entire; ops; hex] ->
+         let op s = let a = String.sub s 1 (String.length s - 1) in
+                    if s.[0] = 'x' then OpExtract (n_of_int (int_of_string a)) else if s.[0] = 'f' then OpFind (bytes_of_hex a) else OpFindExtract (bytes_of_hex a) in
+         let ops = if ops = "-" then [] else List.map op (String.split_on_char ',' ops) in
+         let ((e, r), res) = chm_session (bytes_of_hex hex) (entire = "1") ops in
+         let b = Buffer.create 4096 in
+         (match r with
+          | None -> Buffer.add_string b (Printf.sprintf "E%d" (int_of_n e))
+          | Some ((h, files), sysf) ->
+            Buffer.add_string b (Printf.sprintf "H%d %d %d %d %d %d %d %d %d %d %d %d %d" (int_of_n e) (int_of_n h.h_version) (int_of_n h.h_language) (int_of_z h.h_length) (int_of_n h.h_num_chunks)
+              (int_of_n h.h_chunk_size) (int_of_n h.h_density) (int_of_n h.h_depth) (int_of_n h.h_index_root) (int_of_n h.h_first_pmgl) (int_of_n h.h_last_pmgl)
+              (int_of_z h.h_sec0_offset) (int_of_z h.h_dir_offset));
+            let pe tag en = Buffer.add_string b (Printf.sprintf ";%s %s %d %d %d" tag (cstr_hex en.e_name) (int_of_n en.e_sec) (int_of_n en.e_off) (int_of_n en.e_len)) in
+            List.iter (pe "F") files; List.iter (pe "S") sysf);
+         List.iter (fun r -> match r with
+           | RExtract (st, out) -> Buffer.add_string b (Printf.sprintf "#X %d %s" (int_of_n st) (hex_of_bytes out))
+           | RFind (st, None) -> Buffer.add_string b (Printf.sprintf "#N %d none" (int_of_n st))
+           | RFind (st, Some ((sec, off), ln)) -> Buffer.add_string b (Printf.sprintf "#N %d %d %d %d" (int_of_n st) (int_of_n sec) (int_of_n off) (int_of_n ln))
+           | RNoFile -> Buffer.add_string b "#-") res;
+         print_endline (Buffer.contents b)
      | "lzss", [mode; hex] -> Printf.printf "0 %s\n" (hex_of_bytes (lzss_spec (n_of_int (int_of_string mode)) (bytes_of_hex hex)))
      | _ -> print_endline "?");
     flush stdout
